@@ -1,6 +1,7 @@
 package main
 
 import (
+	"math/big"
 	"fmt"
 	"go/types"
 
@@ -128,7 +129,7 @@ func (x *Exec) selectInstr(in *ssa.Select) {
 	if !in.Blocking {
 		lo = -1
 	}
-	e.assume(x.guard, fmt.Sprintf("(and (<= %d %s) (< %s %d))", lo, idx, idx, n))
+	e.assume(x.guard, fmt.Sprintf("(and (<= %s %s) (< %s %d))", smtInt(big.NewInt(int64(lo))), idx, idx, n))
 	var recvs []Val
 	okv := x.freshVal("selok", types.Typ[types.Bool], "", x.guard)
 	for i, s := range in.States {
